@@ -15,13 +15,14 @@ from vlib import NCPU, WORK, build, e2
 
 LEVEL = 'other'
 EXPLANATION = ('Bounded exhaustive exploration of sparse workbook layouts, enumerated by z3 (presence bits of a 3x3 block, a far cell, a second sparse sheet, the <dimension> tag of the sheets exact / stale / absent, '
-               'an empty third sheet; rotation of an 11-value typed family over the present cells) and executed natively: each layout is a real .xlsx '
+               'an empty third sheet; rotation of a 15-value typed family over the present cells) and executed natively: each layout is a real .xlsx '
                'written by openpyxl, translated by the real Parser, loaded, and every coordinate of a 5x5 box (plus the far cell) is evaluated: planted '
                'value with its exact type, or blank; titles in workbook order; sizes = (max stored column, max stored row); array formulas by their '
                'formula text.')
 RULE = ('one job per rotation of the value family; a case = one layout; non-trivial = job closed over all 1 024 layouts (quick: one <dimension> state each; thorough: x 3 states), or a replayed counterexample')
 
-FAMILY = [7, 0, 2.5, 0.0, True, False, 'text', 'smile \U0001F600 中', datetime.datetime(2024, 2, 29, 13, 5), -3, 1e-7]
+FAMILY = [7, 0, 2.5, 0.0, True, False, 'text', 'smile \U0001F600 中', datetime.datetime(2024, 2, 29, 13, 5), -3, 1e-7,
+          0.0123456789012345, 1e-16, datetime.time(12, 30, 15), datetime.timedelta(days=1, hours=6, minutes=5)]
 TITLES = ['First', 'Second sheet', 'Empty']
 
 
@@ -62,6 +63,8 @@ def _job(rot, timeout, all_dims=True):
             planted[(0, 6, 9)] = FAMILY[(rot + 3) % len(FAMILY)]
         planted[(1, 1, 1)] = 'B2 of second'
         planted[(1, 3, 0)] = 11
+        if far:
+            planted[(1, 2, 2999)] = 'below a gap of 2 997 empty rows'
         wb = Workbook()
         wss = [wb.active, wb.create_sheet(), wb.create_sheet()]
         for ws, t in zip(wss, TITLES):
@@ -111,6 +114,8 @@ def _job(rot, timeout, all_dims=True):
                         return f'cell {TITLES[s]}!({c},{r}) evaluates to {got!r} ({type(got).__name__}), planted {planted.get((s, c, r))!r}'
         if far and not same(inst.exec_function_in('_0_6_9'), planted[(0, 6, 9)]):
             return f'far cell evaluates to {inst.exec_function_in("_0_6_9")!r}, planted {planted[(0, 6, 9)]!r}'
+        if far and not same(inst.exec_function_in('_1_2_2999'), planted[(1, 2, 2999)]):
+            return f'cell below the row gap evaluates to {inst.exec_function_in("_1_2_2999")!r}, planted {planted[(1, 2, 2999)]!r}'
         return None
 
     def run(ex):
@@ -156,9 +161,9 @@ def run(report, tier, seed):
     report.encoded('Excel.parse', 'Excel.get_cells', 'Excel._fill_cell', 'Excel.get_titles', 'Excel.get_sheets_size', 'CellTranslator.translate_file',
                    'CellTranslator._set_cell_to_context', 'Context.build_class', 'Parser._translate')
     report.bound('3 sheets (sparse 3x3 block + far cell G10; fixed sparse second sheet with an optional array formula; empty third sheet); 1 024 layouts x 3 states of the <dimension> tag (exact, stale constant A1, absent) per rotation of an '
-                 '11-value family (int, 0, float, 0.0, True, False, text, non-BMP text, date-time, negative int, small float)')
+                 '15-value family (int, 0, float, 0.0, True, False, text, non-BMP text, date-time, negative int, small floats with 15 significant digits / 1e-16, time of day, duration); with the far cell also a cell below 2 997 empty rows on the second sheet')
     report.assume('the solver enumerates the finite layout space; every case runs natively on a real .xlsx written and read by openpyxl (no stub)',
-                  'reference values are what plain (not read-only) openpyxl reads back from the same file (0.0 is stored as the number 0 -> int); empty text, date without time, time and timedelta are outside the family',
+                  'reference values are what plain (not read-only) openpyxl reads back from the same file (0.0 is stored as the number 0 -> int); empty text and a date without time are outside the family',
                   'outside the claim: more than 3 sheets, blocks larger than 3x3 (+ one far cell)')
     shutil.rmtree(os.path.join(WORK, 'C18', 'c18'), ignore_errors=True)
 
